@@ -12,7 +12,7 @@ from rv import oracles as O
 LEVEL = "exploration"
 RULE = ("all 19 algorithms x tie-heavy and generic inputs of the C01/C03/C05 classes; every case is executed under 6 presentations (list, array, dict with "
         "shuffled string names, names+valueof with integer names disjoint from the values, dict with integer names overlapping the value range, names+valueof strings); "
-        "non-trivial = >= 3 items, >= 2 bins; distinct on (algorithm, config, size, sorted values)")
+        "every 40th case: 9-11 items over two distinct values into 5 bins for ckk under list, array and dict; non-trivial = >= 3 items, >= 2 bins; distinct on (algorithm, config, size, sorted values)")
 ASSUMPTIONS = ["integer values (ndarray presentation needs them)", "bin-completion with names is the open finding KF-bc-names"]
 FLOORS = {"quick": {"distinct_nontrivial": 800}, "thorough": {"distinct_nontrivial": 4000}}
 PRES = ("list", "array", "dict_str", "names_int", "dict_int_overlap", "names_str")
@@ -26,7 +26,7 @@ def plan(tier, seed):
 
 def run(case, pres, ctx):
     if case["kind"] == "partition":
-        return C.run_partition_case(case, "PartitionAndSumsTuple", ctx=ctx, timeout=15, pres=pres)
+        return C.run_partition_case(case, "PartitionAndSumsTuple", ctx=ctx, timeout=6 if case.get("cls") == "twovalued_manybins" else 15, pres=pres)
     return C.run_pack_case(case, "PartitionAndSumsTuple", ctx=ctx, timeout=15, pres=pres)
 
 
@@ -34,7 +34,7 @@ def judge(case, ctx):
     alg, kind = case["alg"], case["kind"]
     ctx.evaluated()
     ref = None
-    for pres in PRES:
+    for pres in (case.get("pres_subset") or PRES):
         named = pres not in ("list", "array")
         r, names, vmap = run(case, pres, ctx)
         if r.timeout:
@@ -92,6 +92,13 @@ def _unkey(k, names):
 
 
 def draw(rng, i):
+    if i % 40 == 39:
+        # many bins, few distinct values: the searches de-duplicate on bin CONTENTS, and with list/array input equal values are indistinguishable names
+        k = 5
+        pool = rng.sample(range(1, 8), 2)
+        vals = [rng.choice(pool) for _ in range(rng.randint(9, 11))]
+        return {"kind": "partition", "alg": "ckk", "k": k, "values": vals, "cls": "twovalued_manybins", "pres": "list",
+                "pres_seed": rng.randrange(1 << 30), "pres_subset": ["list", "array", "dict_str"], "objective": None}
     which = i % 19
     ties = rng.random() < 0.5
     if which < 11:
